@@ -892,8 +892,12 @@ func c20(c *Ctx) {
 		eachInstr(wf, func(in ssa.Instruction) {
 			switch x := in.(type) {
 			case *ssa.UnOp:
-				if x.Op == token.ARROW && pathOf(x.X) == "fm.flushChan" {
-					okRecv = true
+				if x.Op == token.ARROW && strings.HasSuffix(pathOf(x.X), ".flushChan") {
+					if ld, ok := x.X.(*ssa.UnOp); ok {
+						if _, _, base, ok := fieldRef(ld.X); ok && len(wf.Params) > 0 && base == ssa.Value(wf.Params[0]) {
+							okRecv = true
+						}
+					}
 				}
 			case *ssa.Select, ssa.CallInstruction:
 				ninstr++
@@ -918,7 +922,16 @@ func c20(c *Ctx) {
 		c.SawFunc(FuncName(eh))
 		nHook := 0
 		for _, cl := range callsIn(eh) {
-			if strings.HasPrefix(calleeName(cl), "dynamic:") && strings.HasSuffix(calleeName(cl), ".f") {
+			// the hook: a function-typed field of the server, called dynamically
+			isHook := false
+			if !cl.Common().IsInvoke() && staticCallee(cl) == nil {
+				if ld, ok := cl.Common().Value.(*ssa.UnOp); ok && ld.Op == token.MUL {
+					if t, _, base, ok := fieldRef(ld.X); ok && t == "Server" && len(eh.Params) > 0 && ptrOrigin(base) == ssa.Value(eh.Params[0]) {
+						isHook = true
+					}
+				}
+			}
+			if isHook {
 				nHook++
 				isType := func(v ssa.Value) bool { return strings.HasSuffix(pathOf(v), ".Type") }
 				isDone := func(v ssa.Value) bool { k, isC := v.(*ssa.Const); return isC && constName(k) == "RuntimeDone" }
